@@ -80,21 +80,22 @@ type raceRound struct {
 	minRefresh  int
 }
 
+// The path universe is a schema: <top>/x and <top>/y are leaves, <top>/z is a
+// container with leaves p and q, <top>/atomic* hold atomic notifications. No
+// leaf path is a prefix of another (targets respect their schema).
 var (
 	rcTops    = []string{"a", "b"}
 	rcSeconds = []string{"x", "y", "z"}
 	rcThirds  = []string{"p", "q"}
 )
 
-func rcPath(r *rand.Rand, min int) []string {
-	p := []string{rcTops[r.Intn(len(rcTops))]}
-	if min > 1 || r.Intn(4) > 0 {
-		p = append(p, rcSeconds[r.Intn(len(rcSeconds))])
-		if r.Intn(3) == 0 {
-			p = append(p, rcThirds[r.Intn(len(rcThirds))])
-		}
+// rcBelowTop draws a leaf path relative to a top-level container.
+func rcBelowTop(r *rand.Rand) []string {
+	sec := rcSeconds[r.Intn(len(rcSeconds))]
+	if sec == "z" {
+		return []string{sec, rcThirds[r.Intn(len(rcThirds))]}
 	}
-	return p
+	return []string{sec}
 }
 
 func rcGenNoti(r *rand.Rand) *rcNoti {
@@ -126,15 +127,11 @@ func rcGenNoti(r *rand.Rand) *rcNoti {
 		n.prefix = []string{rcTops[r.Intn(len(rcTops))]}
 	}
 	val := func() int64 { return int64(r.Intn(3)) }
-	sub := func() []string { // a path below the prefix
+	sub := func() []string { // a leaf path below the prefix
 		if len(n.prefix) > 0 {
-			p := []string{rcSeconds[r.Intn(len(rcSeconds))]}
-			if r.Intn(3) == 0 {
-				p = append(p, rcThirds[r.Intn(len(rcThirds))])
-			}
-			return p
+			return rcBelowTop(r)
 		}
-		return rcPath(r, 2)
+		return append([]string{rcTops[r.Intn(len(rcTops))]}, rcBelowTop(r)...)
 	}
 	del := func() []string {
 		switch r.Intn(6) {
@@ -318,7 +315,7 @@ func (s *raceRoundStats) labels(rr *raceRound) []string {
 	add(s.connErrThenConnect, "connecterr-then-connect")
 	add(s.stale > 0, "stale-rejected")
 	add(s.future > 0, "future-rejected")
-	add(s.otherErr > 0, "other-error")
+	add(s.otherErr > 0, "multi-update-with-rejected-members(error-list)")
 	add(s.leaves > 0, "leaves-left-at-quiescence")
 	add(len(s.endSynced) > 0, "stream-ended-synced")
 	add(len(s.syncLost) > 0, "OBSERVATION(not-C15):sync-false-at-quiescence-after-Sync")
